@@ -38,7 +38,11 @@ def _worker(args):
         mod = importlib.import_module('vt.props.' + pid.lower())
         os.chdir(scratch())
         try:
-            res = mod.run_chunk(chunk)
+            if isinstance(chunk, dict) and chunk.get('kind') == 'large':
+                from . import large
+                res = large.run_chunk(pid, chunk)
+            else:
+                res = mod.run_chunk(chunk)
         except StopChunk as stop:
             res = stop.result
             res.capped = True
@@ -54,6 +58,9 @@ def run_property(pid, tier, seed, jobs):
     t0 = time.time()
     mod = importlib.import_module('vt.props.' + pid.lower())
     plan = mod.plan(tier, seed)
+    from . import large
+    plan['chunks'] = list(plan['chunks']) + large.plan_chunks(pid, tier)
+    plan['assumptions'] = list(plan.get('assumptions', [])) + [large.assumption()]
     chunks = plan['chunks']
     total = Result()
     errors = []
@@ -156,8 +163,12 @@ def replay(path):
     mod = importlib.import_module('vt.props.' + pid.lower())
     os.chdir(scratch())
     print('replaying %s case: %s' % (pid, json.dumps(rec['case'], ensure_ascii=False)[:2000]))
-    vs = mod.check_case(rec['case'])
-    if not vs and rec.get('chunk') is not None:
+    if isinstance(rec['case'], dict) and 'large' in rec['case']:
+        from . import large
+        vs = large.replay(pid, rec['case'])
+    else:
+        vs = mod.check_case(rec['case'])
+    if not vs and rec.get('chunk') is not None and not (isinstance(rec['chunk'], dict) and rec['chunk'].get('kind') == 'large'):
         print('case alone passes; replaying its whole chunk (history-dependent failure?)')
         res = mod.run_chunk(rec['chunk'])
         vs = res.violations
